@@ -358,7 +358,7 @@ def run_exporter(ch, tr: Trace) -> None:
                     s["host"].load_data_from_vtu(ro["vtu_files"], k_target, times_file)
             except SimCrash:
                 raise
-            except Exception as e:  # noqa: BLE001
+            except (Exception, SystemExit) as e:  # noqa: BLE001  (meshio ends unreadable files with sys.exit(1))
                 if after_midexport:
                     tr.probe("restart_raised_after_midexport_crash")
                     tr.op("restart", "raised", route, k_target, type(e).__name__, changing=False)
@@ -506,3 +506,173 @@ MANIFEST = {
     ),
     "level_note": "Trusted: the durable-record model, the file seam (checked by hand to see every write path), process-crash model (no power loss).",
 }
+
+
+# --------------------------------------------------------------------------------------
+# L2: the real model run, crashed and restarted through params['restart_options']
+def run_model_level(ch, tr: Trace) -> None:
+    from engines import driver_sim
+
+    sim = driver_sim.DriverSim(ch, tr, owner="C38", export=True)
+    sim.configure()
+    with ch.span("config2"):
+        # restarts do not restore the schedule cursor (seen, outside the given properties): keep one scheduled interval
+        sched = sim.tm_kw["schedule"]
+        sim.tm_kw["schedule"] = [sched[0], sched[-1]]
+        sim.p_fail = ch.choice([0, 0, 1, 3])
+        max_cycles = ch.rng(1, 3)
+        torn = ch.flag()
+    tr.emit("config2", sim.tm_kw["schedule"], sim.p_fail, max_cycles, torn)
+    with envseam.scratch() as root:
+        folder = Path(root) / "viz"
+        seam = FsSeam(root, tr)
+        durable: dict = {}
+        state = {"inprog": None, "last_complete": None, "n_exports_session": 0, "crash_after_export": None}
+        ref = None
+        cycle = 0
+        ro = None
+        k_expected = None
+        candidates = None
+        after_mid = False
+
+        def hook(model, real_save):
+            k = model.exporter._time_step_counter
+            tm = model.time_manager
+            rec = {"time": float(tm.time), "dt": float(tm.dt), "values": {"x": model.equation_system.get_variable_values(time_step_index=0)}, "complete": False}
+            prev = durable.get(k)
+            durable[k] = rec
+            state["inprog"] = (k, prev)
+            real_save()
+            rec["complete"] = True
+            state["inprog"] = None
+            state["last_complete"] = k
+            state["n_exports_session"] += 1
+            tr.op("export", "ok", k, rec["time"])
+            tr.state((min(k + 1, 12), cycle, "export", True))
+            if state["crash_after_export"] is not None and state["n_exports_session"] >= state["crash_after_export"]:
+                state["crash_after_export"] = None
+                seam.fired.append(("crash", seam.n, "between", "-"))
+                raise SimCrash("crash right after a complete export")
+
+        sim.export_hook = hook
+        with seam:
+            while True:
+                tm = pp.TimeManager(**sim.tm_kw)
+                model = sim.build(folder=str(folder), restart_options=ro, tm=tm)
+                state["n_exports_session"] = 0
+                crashed = False
+                # arm the crash of this session
+                ch.begin("arm")
+                try:
+                    if cycle < max_cycles:
+                        if ch.flag():
+                            seam.arm_crash(seam.n + 1 + ch.draw(500), ch.choice([0.0, 0.5, 1.0]) if torn else None)
+                        else:
+                            state["crash_after_export"] = ch.rng(1, 6)
+                finally:
+                    ch.end()
+                try:
+                    try:
+                        model.prepare_simulation()
+                    except (SimCrash, Violation):
+                        raise
+                    except (Exception, SystemExit) as e:  # noqa: BLE001  (meshio ends unreadable files with sys.exit(1))
+                        if ro is not None and after_mid:
+                            tr.probe("restart_raised_after_midexport_crash")
+                            tr.op("restart", "raised", type(e).__name__, changing=False)
+                            break
+                        if ro is not None:
+                            raise Violation("restart_from_complete_exports_succeeds", f"prepare_simulation() with restart_options {sorted(k for k in ro if ro[k] is not None)} raised {e!r}", "model_restart_raised")
+                        raise
+                    sim.start(model)
+                    if sim.clock is not None:
+                        for i, s in enumerate(sim.clock.sched):
+                            if s <= float(model.time_manager.time):
+                                sim.clock.hit[i] = True
+                    driver_sim.run_model_loop(sim, model)
+                    break  # the run ended without a crash
+                except SimCrash:
+                    f = seam.fired[-1]
+                    kind = "between_exports" if f[2] == "between" else file_kind(f[3])
+                    tr.fault("crash@" + kind, f[2])
+                    tr.probe("crash_in_" + kind if kind != "between_exports" else "crash_between_exports")
+                    if torn and f[2] == "write":
+                        tr.fault("torn-write", kind)
+                        tr.probe("torn_file")
+                    crashed = True
+                    after_mid = f[2] != "between"
+                seam.plan.clear()
+                state["crash_after_export"] = None
+                if not crashed:
+                    break
+                if state["last_complete"] is None:
+                    tr.emit("crashed-before-first-export")
+                    break
+                # ---- process gone: move the output aside, restart from it ---------------------------------
+                cycle += 1
+                if cycle == 2:
+                    tr.probe("second_restart")
+                if cycle == 3:
+                    tr.probe("third_restart")
+                ref = Path(root) / f"ref{cycle}"
+                shutil.move(str(folder), str(ref))
+                k_last = state["last_complete"]
+                inprog = state["inprog"]
+                candidates = [k_last] + ([inprog[0]] if (after_mid and inprog is not None and inprog[0] != k_last) else [])
+                ch.begin("restart")
+                try:
+                    route = ch.choice(["pvd", "pvd", "mdg_pvd", "vtu"])
+                finally:
+                    ch.end()
+                tr.probe("restart_route_" + route)
+                times_file = ref / "times.json"
+                if route == "pvd":
+                    ro = {"restart": True, "pvd_file": ref / "data.pvd", "is_mdg_pvd": False, "times_file": times_file}
+                elif route == "mdg_pvd":
+                    ro = {"restart": True, "pvd_file": ref / f"data_{k_last:06d}.pvd", "is_mdg_pvd": True, "times_file": times_file}
+                    candidates = [k_last]
+                else:
+                    ex = model.exporter
+                    files = [ref / ex._make_file_name(Path("data"), None, k_last, d).name for d in ex._dims]
+                    files += [ref / ex._make_file_name(Path("data"), "mortar", k_last, d).name for d in ex._m_dims]
+                    ro = {"restart": True, "pvd_file": None, "vtu_files": files, "time_index": k_last, "times_file": times_file}
+                    candidates = [k_last]
+                # the restored state is observed at the first export of the restarted model (the re-export at the end
+                # of prepare_simulation), through the same hook: wrap it once
+                pending = {"cands": list(candidates), "route": route, "mid": after_mid, "inprog": inprog}
+
+                def checking_hook(model, real_save, _p=pending):
+                    if _p is not None and _p.get("cands") is not None:
+                        tm2 = model.time_manager
+                        got = {"x": model.equation_system.get_variable_values(time_step_index=0)}
+                        k = compare(tr, got, tm2.time, tm2.dt, durable, _p["cands"], f"model restart #{cycle} via {_p['route']}" + (" after a crash inside an export" if _p["mid"] else ""),
+                                    strict_sig_prefix="model_" + ("midexport_" if _p["mid"] else ""))
+                        it0 = model.equation_system.get_variable_values(iterate_index=0)
+                        if not np.array_equal(it0, got["x"]):
+                            raise Violation("restart_restores_one_exported_step", f"model restart #{cycle}: the current iterate differs from the restored time-step values", "model_iterate_not_restored")
+                        if model.exporter._time_step_counter != k:
+                            raise Violation("restart_restores_one_exported_step", f"model restart #{cycle}: state of step {k} restored but the exporter continues at file index {model.exporter._time_step_counter}", "model_export_counter_of_other_step")
+                        ip = _p["inprog"]
+                        if ip is not None and k != ip[0]:
+                            if ip[1] is not None:
+                                durable[ip[0]] = ip[1]
+                            else:
+                                durable.pop(ip[0], None)
+                        tr.op("restart", "ok", _p["route"], k, changing=False)
+                        tr.probe("continue_after_restart")
+                        _p["cands"] = None
+                    hook(model, real_save)
+
+                sim.export_hook = checking_hook
+                state["inprog"] = None
+                sim.attempt = 0
+        tr.emit("end", state["last_complete"], cycle)
+
+
+WORKLOADS.append(
+    Workload(
+        name="model", run=run_model_level, runs={"quick": 96, "thorough": 10_000}, chunk=6, run_timeout=400.0,
+        real=["the real SinglePhaseFlow model run: pp.run_time_dependent_model, NewtonSolver, SolutionStrategy.prepare_simulation/reset_state_from_file, DataSavingMixin.save_data_time_step/load_data_from_pvd/load_data_from_vtu, Exporter, TimeManager time I/O, restart through params['restart_options']"],
+        stub=["open() interposer (crash at a drawn crossing, torn file)", "fault-injecting overrides of check_convergence/solve_linear_system (failed steps are exported too, as the code does)"],
+    )
+)
